@@ -4,7 +4,11 @@
    name in which format.  The fixed parts of `build()` (prefix, scheme, media, removal of the trailing
    separator) and the helpers `bool_to_string` / `prefix_tag` are modelled by hand; the translator
    refuses to produce tables when their source text changes.  Definitions only. *)
-Require Import V.Base.MachineInt V.Generated.GenConsts V.Model.UriTypes V.Generated.GenUriTables V.Model.Uri.
+Require Import V.Base.MachineInt.
+Require Import V.Generated.GenConsts.
+Require Import V.Model.UriTypes.
+Require Import V.Generated.GenUriTables.
+Require Import V.Model.Uri.
 Open Scope Z_scope.
 
 (* ---- values ----------------------------------------------------------------------------- *)
